@@ -54,7 +54,7 @@ def mc_u1(pid, tier):
             if "is violated" in r["out"]:
                 return None, r
             tlc_failed(r, "MC_Framing")
-        return (r["distinct"], r["generated"], [{"instance": "MC_Framing", "bounds": "byte strings up to length %d over 10 boundary bytes; 4 streams, every composition" % (5 if tier == "quick" else 7),
+        return (r["distinct"], r["generated"], [{"instance": "MC_Framing", "bounds": "byte strings up to length %d over 10 boundary bytes; 4 streams, every composition" % (5 if tier == "quick" else 6),
                                                  "formulas": ["Inv_Delivered", "Inv_ImplIsRef", "Complete"], "distinct_states": r["distinct"], "transitions": r["generated"],
                                                  "depth": r["depth"], "wall_s": round(r["wall"], 1)}]), None
     scns, formulas = U1[pid]
